@@ -325,6 +325,7 @@ func main() {
 	genSites()
 	genGuards()
 	genSurface()
+	genComparator()
 	if len(failed) > 0 {
 		for _, f := range failed {
 			fmt.Fprintln(os.Stderr, "xlate: PATTERN-MISSING:", f)
